@@ -1191,7 +1191,7 @@ func (P *Prog) checkPrecedence(r *Result) {
 	} else {
 		r.undecided("C11/precedence", "i18n#language-from-context", "-", "i18n formatter closure not found")
 	}
-	r.floor("C11/precedence", 21)
+	r.floor("C11/precedence", 18)
 	// test-level Message / IssueCode / Params options reach the stored test, and the negated code is derived
 	// from the built-in code, not from an IssueCode option (C17's option-locality and not-typestate rules)
 	shareRule(P, r, checkC17, "C17/option-locality", nil, "C11/test-options-effective", 15)
